@@ -200,3 +200,224 @@ SPECS['C06'] = dict(
         + [smt('instrumentation-valid', 'harness.c03', 'v_instrumentation', 'instrumented workloop == original on concrete scripts', kind='validate')]
     ),
 )
+
+SPECS['C01'] = dict(
+    level='other',
+    explanation='Solver-based: CrossHair drives the real pool (submission, task feeding, result dispatch, supervision, terminate_job) in the '
+                'stubbed process world through a symbolic event vector (worker takes / finishes / dies with any status, duplicate and late '
+                'messages, result-handler turns, ticks with clock advances, a failing send at a symbolic index) and a monitor checks after '
+                'every event: outcome stable once observable, callbacks at most once, outcome is the job\'s own or a justified pool-made '
+                'failure, and at quiescence every accepted job is resolved.',
+    functions=POOL_FUNCS + ['Pool.terminate_job', 'ApplyResult._set_terminated'],
+    bounds={'quick': 'pool of 2; job A = apply, job B in {apply, map(2 chunks), imap_unordered(2 items)}; 5 events from the menu; '
+                     'statuses in [-15,3]; one raising part at a symbolic position; failing send at index 0..2',
+            'thorough': '6 events'},
+    outside=['more than 2 jobs / workers', 'ordered imap (its loss reporting is finding F6 under C04)', 'real threads'],
+    assumptions=POOL_ASSUME,
+    trusted_base=TRUST,
+    obligations=(
+        parts(ch('dispatch', 'harness.c01', 'h_dispatch', 'take/finish/duplicate/late messages in any order: single stable own outcome, callbacks once, '
+                 'all resolved at quiescence', timeout=(300, 1500)), 12)
+        + parts(ch('faults', 'harness.c01', 'h_fault', 'workers die with any status mid-task or idle, ticks and clock advances interleaved: '
+                   'WorkerLostError only for the job whose worker died holding it', timeout=(300, 1500)), 18)
+        + parts(twin('faults', 'harness.c01', 'h_fault_twin', 'a run reporting a lost job exists'), 3)[:0]
+        + parts(ch('terminate-job', 'harness.c01', 'h_term', 'terminate_job on a busy worker: Terminated for exactly its job', timeout=(300, 1500)), 6)
+        + parts(ch('send-failure', 'harness.c01', 'h_send', 'a task that cannot be written (symbolic index): the failure lands on that job and only it; '
+                   'every job still resolves', timeout=(300, 1500)), 3)
+        + parts(twin('send-failure', 'harness.c01', 'h_send_twin', 'the failing send is reached'), 3)
+    ),
+)
+
+SPECS['C10'] = dict(
+    level='other',
+    explanation='Solver-based: (a) CrossHair proves one step of every LaxBoundedSemaphore operation from an arbitrary valid state '
+                '(0<=value<=bound<=1000), so the bound holds for histories of any length; (b) CrossHair drives the real pool with '
+                'put-locks in the stubbed process world through a symbolic event vector and checks conservation (bound-value = jobs '
+                'in flight while no worker exits), blocking exactly at the bound, and all slots free at quiescence; (c) the thread '
+                'races release||clear etc. are decided by the z3 BMC of the compiled methods.',
+    functions=['billiard.pool.LaxBoundedSemaphore.acquire/release/grow/shrink/clear', 'Pool.apply_async (slot taken)',
+               'ResultHandler on_ready (slot returned)', 'Pool._maintain_pool (slot returned on replacement)', 'Pool.grow/shrink'] + POOL_FUNCS,
+    bounds={'quick': '(a) any 0<=value<=bound<=1000, clear with bound-value<=4; (b) pool of 2, <=3 apply jobs (+1 map job / failing send / '
+                     'worker exits), 5 events', 'thorough': '6 events'},
+    outside=['more than 2 slots in the pool scenarios', 'discard() (not in the property alphabet)'],
+    assumptions=POOL_ASSUME + ['the blocking branch of acquire raises WouldBlock instead of sleeping (subclass of the real semaphore)'],
+    trusted_base=TRUST,
+    obligations=(
+        [ch('sem-step', 'harness.c10', 'h_sem_step', 'one step of acquire/release/grow/shrink/clear from any valid state keeps 0<=value<=bound '
+            'and has the documented effect (inductive: histories of any length)', timeout=(120, 600)),
+         twin('sem-step', 'harness.c10', 'h_sem_step_twin', 'the capped release (value == bound) is reached')]
+        + parts(ch('pool-slots', 'harness.c10', 'h_pool', 'conservation / blocking at the bound / all slots free at quiescence, histories of '
+                   'submissions, takes, results, exits, ticks, a map job, a failing send', timeout=(300, 1500)), 8)
+        + parts(twin('pool-slots', 'harness.c10', 'h_pool_twin', 'a run in which apply_async blocks exists'), 8)
+    ),
+)
+
+SPECS['C09'] = dict(
+    level='other',
+    explanation='Solver-based: CrossHair drives the real supervision code (reap, repopulate, slot indices, grow, shrink) through a symbolic '
+                'sequence of worker exits with any status, grow/shrink calls and ticks, and a recycling pool (per-child quota) through '
+                'symbolic orders of takes, results, result handling and ticks for every job kind; the worker side of the quota and of the '
+                'memory limit runs the real Worker.workloop.',
+    functions=POOL_FUNCS + ['Pool.grow', 'Pool.shrink', 'Pool._iterinactive', 'Pool._worker_active'] + WORKER_FUNCS,
+    bounds={'quick': 'pool of 3 (size 1..4 after grow/shrink), 5 events; recycling: pool of 2, quota 1..2, 3 parts, 8 events',
+            'thorough': '6 / 9 events'},
+    outside=['real processes', 'pool sizes above 4'],
+    assumptions=POOL_ASSUME + WORKER_ASSUME + ['a worker told to terminate while idle exits at once (C08 worker side)'],
+    trusted_base=TRUST,
+    obligations=(
+        [ch('pool-size', 'harness.c09', 'h_size', 'after every tick: len(pool)==configured size, distinct slot indices below it, no dead worker kept, '
+            'control tables match, slot bound == size', timeout=(300, 1500)),
+         twin('pool-size', 'harness.c09', 'h_size_twin', 'a run with a shrink exists')]
+        + parts(ch('recycling', 'harness.c09', 'h_recycle', 'per-child quota: no job lost, duplicated, failed or held up; consumed results are '
+                   'credited to their sender so that a worker that reached its quota can leave without the 30 s guard', timeout=(300, 1500)), 8)
+        + parts(twin('recycling', 'harness.c09', 'h_recycle_twin', 'a run in which a worker is recycled exists'), 8)
+        + [smt('instrumentation-valid', 'harness.c03', 'v_instrumentation', 'instrumented workloop == original on concrete scripts', kind='validate'),
+           ch('worker-memlimit', 'harness.c03', 'h_memlimit', 'memory limit: the loop returns EX_RECYCLE right after the task that crossed it, after its READY',
+              timeout=(300, 1500), nontrivial_witness=True)]
+        + parts(ch('worker-quota', 'harness.c03', 'h_protocol', 'at most N task bodies per worker, EX_RECYCLE after the consumption guard', timeout=(300, 1500)), 9)
+    ),
+)
+
+SPECS['C13'] = dict(
+    level='other',
+    explanation='Solver-based: CrossHair executes the real framing / write-all / read-exactly / bounds-check code of billiard.connection with '
+                'the kernel replaced by stubs bound through the write=/read= default arguments: every write accepts a symbolic number of '
+                'bytes or fails with EINTR, every read returns a symbolic number of bytes, EINTR or end-of-stream at a symbolic cut '
+                'position; offsets, sizes, maxlength and buffer sizes are symbolic; a second tier makes the payload LENGTH a solver '
+                'variable up to 2**31+5 (abstract buffer) to cross the 16384-byte concatenation threshold and the framing limit.',
+    functions=['billiard.connection._ConnectionBase.send_bytes', 'recv_bytes', 'recv_bytes_into', '_check_closed/_check_readable/_check_writable',
+               '_bad_message_length', 'poll', 'Connection._send', 'Connection._recv', 'Connection._send_bytes', 'Connection._recv_bytes'],
+    bounds={'quick': 'payload <= 3 bytes (two messages on the receive side), every fragmentation, one EINTR at a symbolic call, cut at every '
+                     'position; threshold tier: 0 <= n <= 2**31+5 with three symbolic partial writes',
+            'thorough': 'payload <= 5 bytes'},
+    outside=['the kernel (real pipes/sockets), wait()/poll readiness', 'payload contents other than a fixed pattern (the code never inspects them)',
+             'pickling in send()/recv()'],
+    assumptions=['os.write accepts between 1 and len(buf) bytes or raises EINTR; os.read returns between 1 and min(wanted, available) bytes, '
+                 'raises EINTR, or returns b"" once the peer closed', 'struct.pack("!i") replaced by a stand-in in the threshold tier only '
+                 '(validated against struct on boundary values every run)'],
+    trusted_base=TRUST,
+    obligations=[
+        ch('send', 'harness.c13', 'h_send', 'bytes accepted by the kernel == header + payload[offset:offset+size], nothing else; invalid '
+           'offset/size rejected before any I/O', timeout=(300, 1500)),
+        twin('send', 'harness.c13', 'h_send_twin', 'a run with split writes and an EINTR retry exists'),
+        ch('recv', 'harness.c13', 'h_recv', 'each message returned exactly, in order; clean EOF only at a boundary; a truncated message raises '
+           'and is never delivered', timeout=(300, 1500)),
+        twin('recv', 'harness.c13', 'h_recv_twin', 'a run delivering both messages over >= 5 reads exists'),
+        ch('limits', 'harness.c13', 'h_limits', 'maxlength never exceeded, connection unreadable/closed afterwards; BufferTooShort carries the whole '
+           'message and leaves the buffer untouched; offsets validated before I/O', timeout=(300, 1500), nontrivial_witness=True),
+        ch('state', 'harness.c13', 'h_state', 'closed or wrong-direction handles rejected before any I/O', timeout=(120, 600), nontrivial_witness=True),
+        ch('threshold', 'harness.c13', 'h_threshold', 'symbolic length across 16384 and 2**31-1: header+payload exactly once, struct.error beyond the limit',
+           timeout=(120, 600)),
+        twin('threshold', 'harness.c13', 'h_threshold_twin', 'the separate-header branch (n > 16384) is reached'),
+        smt('struct-standin', 'harness.c13', 'v_struct', 'FakeStruct == struct on boundary values', kind='validate'),
+    ],
+)
+
+SPECS['C14'] = dict(
+    level='other',
+    explanation='Solver-based inductive step: CrossHair builds an arbitrary heap satisfying the representation invariant (symbolic cut points, '
+                'live/free pattern, optional second arena, optional pending free), runs ONE real malloc(size) or free(block) with symbolic '
+                'arguments - with a garbage-collection-triggered free delivered at a symbolic point inside the operation, or with the lock '
+                'already held - and asserts the invariant (exact partition, alignment, merged neighbours, index consistency) and the '
+                'property of the returned block afterwards; one step from every valid state covers histories of any length. z3 proves '
+                'the arithmetic cut (L-roundup) on the current source, cross-checked with cvc5.',
+    functions=['billiard.heap.Heap.__init__', 'Heap.malloc', 'Heap.free', 'Heap._malloc', 'Heap._free', 'Heap._absorb', 'Heap._free_pending_blocks',
+               'Heap._roundup (SMT lemma)', 'BufferWrapper.__init__', 'BufferWrapper.create_memoryview'],
+    bounds={'quick': 'one arena of <= 8 units of 8 bytes cut into 3 blocks (all 5 live/free patterns without adjacent free blocks), optionally a '
+                     'second arena 16|24 free|24; page size scaled to 64; request 0..100 bytes; GC free at call 0..4 of _malloc/_free/_absorb',
+            'thorough': '<= 10 units'},
+    outside=['mmap contents and real page size (scaled: sizes are realised by hashing of dict keys)', 'true multi-threaded timing beyond '
+             'the lock-held flag and the re-entrant GC free', 'pre-states with more than 3 blocks per arena (reached only through the bounded histories)'],
+    assumptions=['Arena replaced by a record (size, serial, bytearray)', 'Heap._roundup replaced by ((n+a-1)//a)*a inside CrossHair, justified by L-roundup',
+                 'a pre-state that no real history reaches is still a valid state of the invariant (the invariant is what is proved inductive)'],
+    trusted_base=TRUST + ['cvc5 1.0.3 binary (cross-check of the lemma)'],
+    obligations=(
+        [smt('L-roundup', 'vlib.smtlemmas', 'l_roundup', 'for a in {8,64,4096,65536}, all 0<=n<2**63: (n+mask)&~mask == ((n+a-1)//a)*a, >= n, < n+a, multiple of a')]
+        + parts(ch('malloc-step', 'harness.c14', 'h_malloc', 'one malloc from any valid state: invariant kept; block >= size, 8-aligned, inside its arena, '
+                   'not previously live; no new arena if a free extent fits; GC free inside is deferred', timeout=(300, 1500)), 10)
+        + parts(twin('malloc-step', 'harness.c14', 'h_malloc_twin', 'a run with a GC free inside malloc exists'), 10)
+        + parts(ch('free-step', 'harness.c14', 'h_free', 'one free from any valid state: invariant kept; merged with both free neighbours; with the '
+                   'lock held it is only deferred and the next operation absorbs it', timeout=(300, 1500)), 10)
+        + parts(twin('free-step', 'harness.c14', 'h_free_twin', 'a run with the lock already held exists'), 10)
+        + [ch('histories', 'harness.c14', 'h_history', 'malloc,malloc,free,malloc,free from the empty heap with symbolic sizes: invariant, no overlap, '
+              'sizes honoured (reachability evidence for the invariant)', timeout=(300, 1500), nontrivial_witness=True),
+           ch('buffer-wrapper', 'harness.c14', 'h_wrapper', 'two live BufferWrappers: size <= block, view inside the block, disjoint storage, writes do not leak',
+              timeout=(300, 1500), nontrivial_witness=True)]
+    ),
+)
+
+SPECS['C12'] = dict(
+    level='other',
+    explanation='Solver-based for the depth bound: CrossHair runs the real einfo.Traceback constructor on a synthetic traceback chain of '
+                'symbolic length with a symbolic frame limit and checks the number and order of frames kept and the truncation marker. '
+                'The unserialisable-result and base-exception clauses run in the worker harness (real Worker.workloop, symbolic scripts). '
+                'Type/args/text/traceback stability over pickle round trips is a concrete validation run (pickle is C code: every symbolic '
+                'payload is realised, so the solver could only sample there).',
+    functions=['billiard.einfo.Traceback.__init__', '_Frame.__init__', '_Code.__init__', '_Truncated', 'ExceptionInfo.__init__',
+               'ExceptionWithTraceback.__reduce__', 'rebuild_exc', 'Worker.workloop (MaybeEncodingError path)'],
+    bounds={'quick': 'chain length 1..8, frame limit 0..8; worker scripts of 3 tasks', 'thorough': 'chain length 1..14'},
+    outside=['"for all exception types and argument tuples" and "unserialisable at any nesting depth": inside pickle (C); covered only by '
+             'the concrete validation cases', 'recursion beyond the interpreter limit while the record is being built'],
+    assumptions=WORKER_ASSUME,
+    trusted_base=TRUST + ['pickle (C)'],
+    obligations=[
+        ch('depth-limit', 'harness.c12', 'h_depth', 'copy keeps min(L, max_frames+2) frames in order, marker iff longer, total <= max_frames+3', timeout=(300, 1500)),
+        twin('depth-limit', 'harness.c12', 'h_depth_twin', 'a truncated copy exists'),
+        smt('roundtrip-concrete', 'harness.c12', 'v_roundtrip', 'real exceptions (7 types) x depths incl. beyond the frame limit and 3000 frames: depth bounded, '
+            'format_exception accepts the record, type/args/text/traceback unchanged by 3 pickle round trips; __reduce__ shape of the stand-ins', kind='validate'),
+        ch('worker-unpicklable', 'harness.c03', 'h_unpicklable', 'unserialisable result at any set of positions: exactly one READY(False, MaybeEncodingError) '
+           'for that job, the worker goes on', timeout=(200, 900), nontrivial_witness=True),
+    ] + parts(ch('worker-exceptions', 'harness.c03', 'h_protocol', 'Exception / BaseException raised by a task is reported as that job\'s failure with '
+                 'type and args intact; the loop continues', timeout=(300, 1500)), 9),
+)
+
+SPECS['C19'] = dict(
+    level='other',
+    explanation='Solver-based: CrossHair runs the real Popen.poll/wait with os.waitpid returning a symbolic (pid, status) / EINTR / ECHILD over '
+                'successive polls, the real BaseProcess.start/join/is_alive/exitcode guards with symbolic creator and caller pids, and the '
+                'real BaseProcess._bootstrap with run() returning, raising, or calling sys.exit(x) for symbolic x, composed with the kernel '
+                'model (code & 0xff) << 8 and the decoder.',
+    functions=['billiard.popen_fork.Popen.poll', 'Popen.wait', 'billiard.process.BaseProcess.start', 'join', 'is_alive', 'exitcode', '_bootstrap'],
+    bounds={'quick': '3 successive polls over a script of 5 waitpid outcomes; all 16-bit statuses; exit codes -3..300; signals 1..64',
+            'thorough': '4 polls'},
+    outside=['fork/exec themselves, spawn and forkserver child start-up', 'forkserver Popen.poll (reads the status from a pipe; its 255-on-EOF rule '
+             'is two lines and is exercised by the seeded-change demos only)', 'join(timeout) wall-clock'],
+    assumptions=['wait-status macros are pure-Python bit operations validated against os.W* on all 65536 statuses every run',
+                 'waitpid without WUNTRACED never reports stopped/continued statuses', 'logging re-initialisation, after-fork hooks and '
+                 'exit functions in _bootstrap are stubbed'],
+    trusted_base=TRUST,
+    obligations=[
+        smt('waitstatus-model', 'harness.c19', 'v_waitstatus', 'stub validation', kind='validate'),
+        ch('poll', 'harness.c19', 'h_poll', 'returncode None until a poll sees the own pid, the decoded status afterwards, never changes, child never waited twice',
+           timeout=(300, 1500)),
+        twin('poll', 'harness.c19', 'h_poll_twin', 'a run reporting a signal death exists'),
+        ch('exit-roundtrip', 'harness.c19', 'h_exit_roundtrip', 'exit(n) -> n for 0..255, signal s (with or without core) -> -s for 1..64', timeout=(200, 900), nontrivial_witness=True),
+        ch('wait', 'harness.c19', 'h_wait', 'timed wait returns None without reaping when the child did not end; otherwise the decoded status', timeout=(200, 900), nontrivial_witness=True),
+        ch('guards', 'harness.c19', 'h_guards', 'start only once and only by the creator; alive/exitcode None until the end; after join not an active child',
+           timeout=(300, 1500), nontrivial_witness=True),
+        ch('bootstrap', 'harness.c19', 'h_bootstrap', 'return -> 0, exception -> 1, sys.exit(n) -> n, and n survives kernel + decoder for 0..255', timeout=(300, 1500), nontrivial_witness=True),
+    ],
+)
+
+SPECS['C18'] = dict(
+    level='other',
+    explanation='Solver-based: CrossHair runs the real deliver_challenge / answer_challenge in both directions (the order used by Listener.accept '
+                'and Client) over in-memory message pairs with symbolic keys, symbolic challenge bytes and symbolic hostile replies at each '
+                'step; hmac.new is a stand-in injective on (zero-padding-normalised key, message).',
+    functions=['billiard.connection.deliver_challenge', 'answer_challenge', 'Listener.__init__ (key type)', 'Listener.accept', 'Client'],
+    bounds={'quick': 'keys of 1..2 bytes, 2 symbolic challenge bytes (+18 fixed), hostile replies <= 6 / verdicts <= 10 bytes',
+            'thorough': 'keys of 1..3 bytes'},
+    outside=['cryptographic strength of HMAC-MD5 (collision-freedom is assumed)', 'keys longer than the HMAC block size (hashed first)',
+             'sockets; AuthenticationString pickling guard (process.py)'],
+    assumptions=['hmac.new(key, msg).digest() is injective on (key without trailing NUL bytes, msg) - HMAC pads short keys with zeros',
+                 'os.urandom returns arbitrary bytes'],
+    trusted_base=TRUST,
+    obligations=[
+        ch('mutual', 'harness.c18', 'h_mutual', 'both sides finish iff the keys are equal; otherwise both raise AuthenticationError; challenge sent as generated, '
+           'one fresh challenge per direction', timeout=(300, 1500)),
+        twin('mutual', 'harness.c18', 'h_mutual_twin', 'a refused handshake exists'),
+        ch('hostile-answer', 'harness.c18', 'h_hostile_answer', 'any reply other than the exact digest is answered #FAILURE# and raises', timeout=(300, 1500), nontrivial_witness=True),
+        ch('hostile-verdict', 'harness.c18', 'h_hostile_verdict', 'the answering side completes only on the exact welcome message', timeout=(300, 1500), nontrivial_witness=True),
+        ch('key-type', 'harness.c18', 'h_keytype', 'str / int / bytearray keys raise TypeError before any handshake message', timeout=(120, 600), nontrivial_witness=True),
+    ],
+)
